@@ -569,6 +569,10 @@ def _exemptions(repo, fn):
                 b_ = b_["stmts"][-1]["expr"]
             if b_["k"] == "If":
                 consumed.add(id(b_))
+        elif k == "MethodCall" and n["method"] == "skip" and id(n) in pm and pm[id(n)][0].get("k") == "MethodCall" and pm[id(n)][0]["method"] == "zip" \
+                and pm[id(n)][1] == "args" and len(n["args"]) == 1 and n["args"][0].get("k") == "Lit" and str(n["args"][0].get("v", n["args"][0].get("value", ""))).strip() == "1" \
+                and render(pm[id(n)][0]["recv"], envs.get(id(n))) == render(n["recv"], envs.get(id(n))):
+            pass  # `xs.zip(xs.skip(1))`: every adjacent pair of one sequence (what `windows(2)` gives) -- the shift drops no pair
         elif k == "MethodCall" and n["method"] in DROPPERS:
             clo = [a for a in n["args"] if a["k"] == "Closure"]
             if clo:
